@@ -1,4 +1,6 @@
 """C08 — Bucket counts follow 'value <= upper bound' for every input (DESIGN §4.C08)."""
+import re
+
 from pvrules.mir import is_call, peel, show, strip_generics, subterms
 from pvrules.rules import (SELF_FIELD, agg_field, const_int, count_range, elem_of, find_aggs, ok_payloads, rejecting, result_assign_blocks,
                            try_continue_block)
@@ -97,6 +99,7 @@ def rule_R1_R2(ctx, f):
     ctx.ob("R1", "gate|ok-after-loop", all(b.dominates(exit_t, x) for x in okb), "Ok must be reachable only after the validation loop has finished", site=n.span)
     # ---- R2
     pair = None
+    via_get = []
     for bi in b.reach(body_entry, avoid_blocks=[n.bb]):
         be = b.bool_edges(bi)
         if not be or be[0][0] != "binop" or be[0][1] not in ("Lt", "Le", "Gt", "Ge"):
@@ -105,6 +108,16 @@ def rule_R1_R2(ctx, f):
 
         def nxt(t):
             t = peel(t, transparent=["Index::index"]) if False else peel(t)
+            # buckets.get(i + 1) -> Some(next): the Some arm is itself the `i + 1 < len` guard
+            if isinstance(t, tuple) and len(t) == 3 and t[0] == "field" and isinstance(t[1], tuple) and t[1][0] == "downcast" and t[1][2] == "Some":
+                g_ = peel(t[1][1], transparent=[])
+                if is_call(g_, ["slice::get", "Vec::get"]) and peel(g_[2][0]) == P(1):
+                    i = g_[2][1]
+                    plus1 = (i[0] == "field" and i[1][0] == "binop" and i[1][1] in ("AddWithOverflow", "Add") and idx is not None and peel(i[1][2]) == idx and const_int(i[1][3]) == 1) or \
+                            (i[0] == "binop" and i[1] == "Add" and idx is not None and peel(i[2]) == idx and const_int(i[3]) == 1)
+                    if plus1:
+                        via_get.append(g_)
+                        return True
             if is_call(t, ["Index::index", "slice::get_unchecked"]) and peel(t[2][0]) == P(1):
                 i = t[2][1]
                 if i[0] == "field" and i[1][0] == "binop" and i[1][1] in ("AddWithOverflow", "Add") and idx is not None and peel(i[1][2]) == idx and const_int(i[1][3]) == 1:
@@ -156,6 +169,10 @@ def rule_R1_R2(ctx, f):
                     g_ok = True
                 if op == "Ne" and idx is not None and peel(x) == idx and len_minus_1(y) and b.edge_dominates(bj, g[1], bi):
                     g_ok = True
+        if via_get and not g_ok:
+            gc = [c for c in b.calls() if c.bb == via_get[0][3]]
+            # the lookup of the successor happens for every element that passed the NaN test
+            g_ok = len(gc) == 1 and b.all_paths_pass(body_entry, [gc[0].bb], dst_set={n.bb})
         ctx.ob("R2", "gate|all-pairs", g_ok, "the adjacent-pair test must run for every i < len-1 (guard `i < len - 1` or `i + 1 < len`)", site=b.span_of_block(bi))
 
 
@@ -194,6 +211,15 @@ def rule_R3(ctx, f):
                 guards.add(strip_generics(be[0][1]).split("::")[-1])
                 t = peel(be[0][2][0], transparent=["Option::unwrap", "Option::expect"])
                 tail_ok = tail_ok and is_call(t, ["slice::last", "Vec::last"]) and peel(t[2][0]) == P(1)
+        if not guards:
+            for bi in b.reach(exit_t):
+                be = b.bool_edges(bi)
+                if be and be[0][0] == "binop" and be[0][1] == "Eq" and b.edge_dominates(bi, be[1], pops[0].bb):
+                    x, y = be[0][2], be[0][3]
+                    infs = [z for z in (x, y) if isinstance(z, tuple) and z[0] in ("const", "constdef") and re.search(r"INFINITY|^\+?inf", str(z[1]))]
+                    lasts = [z for z in (x, y) if is_call(peel(z, transparent=["Option::unwrap", "Option::expect"]), ["slice::last", "Vec::last"])]
+                    if len(infs) == 1 and len(lasts) == 1 and peel(peel(lasts[0], transparent=["Option::unwrap", "Option::expect"])[2][0]) == P(1):
+                        guards = {"is_sign_positive", "is_infinite"}     # `last == +Inf` is the same test
         ctx.ob(rid, "inf|pop-guard", guards == {"is_sign_positive", "is_infinite"} and tail_ok,
                "pop must be guarded by is_sign_positive && is_infinite of buckets.last() (found guards %s)" % sorted(guards), site=pops[0].span)
     oks = ok_payloads(b)
